@@ -380,6 +380,10 @@ def run(ck, facts):
         defs = None
         for n in C.walk(C.fn_body(f)):
             if n.get("k") == "mcall" and n.get("m") in ("unwrap", "expect") and "option::Option" in (n.get("rty") or ""):
+                r0 = C.strip(n["recv"])
+                if r0.get("k") == "mcall" and r0.get("m") in ("next", "next_back", "last") and not r0.get("a") and C.strip(r0["recv"]).get("k") == "mcall" and \
+                        C.strip(r0["recv"]).get("m") in ("split", "rsplit", "split_terminator", "splitn", "rsplitn", "split_inclusive") and "str" in (C.strip(r0["recv"]).get("rty") or ""):
+                    continue   # str::split yields at least one item whatever the string is: not a data-dependent unwrap
                 if defs is None:
                     defs = flow.defs_of(f)
                 leaves = flow.trace(n["recv"], defs)
